@@ -7,6 +7,7 @@ package aggregate
 //@ func NewHashAggregate
 //@   assigns nothing
 //@   requires stepsBatch >= 0
+//@   requires[C08,C13] operand-was-built: next != nil && points != nil
 //@   ensures[C08] err-is-unsupported: result1 != nil ==> (result1.isNS || result1.isNI) && result0 == nil
 //@   ensures ok-nonnil: result1 == nil ==> result0 != nil
 // The operator is built with one parameter slot and one worker per step of a batch and with the
@@ -19,6 +20,7 @@ package aggregate
 //@ func NewKHashAggregate
 //@   assigns nothing
 //@   requires stepsBatch >= 0
+//@   requires[C08,C13] operand-was-built: next != nil && points != nil
 //@   ensures[C08] never-fails: result1 == nil && result0 != nil
 // The label hash only covers every grouping label if the list is sorted (C04; C11: whatever order the query wrote them in):
 //@   ensures[C04,C11] grouping-labels-sorted: istype(result0, *aggregate.kAggregate) && sortedNames(cast(result0, *aggregate.kAggregate).labels) &&
